@@ -146,6 +146,15 @@ func runC16Case(c *Ctx, idx int) *CaseResult {
 					nontrivial = true // rebuild after removal
 				}
 			}
+			// sometimes the text ends in a cut-off rule (header only, or cut inside the body) that
+			// names an existing or a new rule: the build must fail and change nothing that exists
+			if r.Intn(6) == 0 {
+				nm := names[r.Intn(len(names))]
+				cut := []string{`rule %s`, `rule %s "cut" salience 10`, `rule %s "cut" {`, `rule %s "cut" { when F.On then`}[r.Intn(4)]
+				txt = append(txt, fmt.Sprintf(cut, nm))
+				wantErr = true
+				cr.inc("builds_ending_in_a_cut_off_rule")
+			}
 			var err error
 			func() {
 				defer func() {
